@@ -514,6 +514,10 @@ def classify(c):
 # ---------------------------------------------------------------- the check
 def run(ctx):
     ctx.source_hash("sigpy/alg.py", "sigpy/util.py")
+    # tie by translation (DESIGN 2.8): gen/Gen_alg.v is regenerated from alg.py (translate_all job "alg") and compiled;
+    # its lemmas state generated Alg.update / ConjugateGradient.__init__/_update/_done == coq/model/Alg.v
+    from tools import translate_alg
+    tie_broken = translate_alg.tie(ctx, ["alg"])    # obligations "translate:sigpy/alg.py (...)", "tie:generated solver steps == hand model"
     proof_ok = ctx.prove("Prop_C12.v")
     sp = core.import_sigpy()
     rng = ctx.rng
@@ -590,8 +594,8 @@ def run(ctx):
                         "expected": "trajectory of coq/model/Alg.v cg_init/cg_update on binary64 (run/RunC12.v)"})
             ctx.violation("Coq CG model and implementation disagree (%s, %s)" % (which, classify(c)), rec,
                           found_input=has_input, signature=sig)
-    if (not proof_ok or not corr_ok) and not ctx.violations:
-        broken = getattr(ctx, "broken_proof", {"theorem": "corr:coq-run", "log": "; ".join(ctx.notes)})
+    if (not proof_ok or not corr_ok or tie_broken) and not ctx.violations:
+        broken = getattr(ctx, "broken_proof", tie_broken or {"theorem": "corr:coq-run", "log": "; ".join(ctx.notes)})
         ctx.violation("proof obligation no longer checks: %s" % broken.get("theorem"),
                       {"kind": "proof", "broken": broken}, found_input=False, signature="C12:proof")
     ctx.coverage["rule"] = (
@@ -647,8 +651,9 @@ TRUSTED = [
 PROVED = ["see coq/props/Prop_C12.v (theorem list in obligation_list); all statements are over an arbitrary real inner-product "
           "space and quantify over all k"]
 VALIDATED = [
-    "finite termination in n steps (stretch; only validated numerically: error after n updates at rounding level)",
-    "Krylov space: proved is K_k(PA, P r0) <= span{p_0..p_{k-1}} and hence optimality over x0 + K_k (C12_cg_krylov_optimal); "
+    "finite termination: PROVED (C12_cg_finite_solved / _resid / _then_breakdown / C12_cg_run_solves under dim_le V n, and dim_le proved "
+    "for R^n, C12_Rn_dim_le); the oracle additionally checks the error after n+3 updates on the implementation in floating point",
+    "Krylov space: PROVED span{p_0..p_{k-1}} = K_k(PA, P r0) (C12_cg_span_eq_krylov) and optimality over x0 + K_k (C12_cg_krylov_optimal); "
     "the numerical Krylov least-squares oracle checks the same statement on the implementation",
     "in-place update of the caller's array (object identity, shared memory and the contents of the CALLER's array after every "
     "update, incl. single-precision arrays passed to a double-precision system; the alias IR is not built)",
